@@ -4,7 +4,9 @@
 S=$(readlink -f "$1"); C=$2; tier=${3:-quick}
 cd /verif || exit 2
 [ -z "$(git -C /repo status --porcelain --untracked-files=no)" ] || { echo "/repo has uncommitted changes; refusing" >&2; exit 2; }
-trap 'git -C /repo checkout -- . ' EXIT
+# the evidence file of the check is saved and put back: a run against a seeded tree must never end up as committed evidence
+ev=evidence/$C.json; [ -f "$ev" ] && cp "$ev" "/tmp/seed_detect_ev_$$.json"
+trap 'git -C /repo checkout -- . ; [ -f "/tmp/seed_detect_ev_$$.json" ] && mv "/tmp/seed_detect_ev_$$.json" "/verif/$ev"' EXIT
 git -C /repo apply "$S/patch.diff" || exit 2
 mkdir -p build/seed
 log=build/seed/$(basename "$S")-$C-$tier.log
